@@ -55,6 +55,21 @@ Definition geno_eqb (a b : geno) : bool :=
 (* number of planes of the array that is written: 2 after check_phase, else 3 *)
 Definition planes (g : geno) : Z := nth 2 (g_shape g) 3.
 
+(* the attribute _prephased = True on the object that writes: the phase plane, if
+   there is one, is ignored and every call is written as phased *)
+Definition as_prephased (g : geno) : geno :=
+  mkg (g_samples g) (g_variants g) (g_rows g) [nth 0 (g_shape g) 0; nth 1 (g_shape g) 0; 2].
+
+(* _prephased = True on the object that reads: the array gets two planes only
+   (the harness encodes the absent third component of a call as 1) *)
+Definition drop_phase (g : geno) : geno :=
+  mkg (g_samples g) (g_variants g)
+      (map (map (fun c : call => let '(a, b, _) := c in (a, b, 1))) (g_rows g))
+      (match g_shape g with
+       | [n; p; k] => if k =? 0 then [n; p; k] else [n; p; 2]
+       | sh => sh
+       end).
+
 (* ---- the chunk loop: for start in range(0, len(l), c): l[start:start+c] ---- *)
 
 Section Chunks.
